@@ -119,7 +119,25 @@ func (w *pathWalker) walk(prev, b *ssa.BasicBlock, st *pathState, seen map[*ssa.
 				}
 				return
 			}
-			if name, givenOnTrue, ok := w.inputGiven(x.Cond); ok {
+			// the condition as decided by the path: phis of short-circuit operators and boolean variables resolved
+			cond, neg := x.Cond, false
+			for i := 0; i < 20; i++ {
+				if phi, ok := cond.(*ssa.Phi); ok {
+					if pv, ok := st.phis[phi]; ok {
+						cond = pv
+						continue
+					}
+				}
+				if u, ok := cond.(*ssa.UnOp); ok && u.Op == token.NOT {
+					cond, neg = u.X, !neg
+					continue
+				}
+				break
+			}
+			if name, givenOnTrue, ok := w.inputGiven(cond); ok {
+				if neg {
+					givenOnTrue = !givenOnTrue
+				}
 				t, f := givenOnTrue, !givenOnTrue
 				if cur := st.given[name]; cur != nil {
 					// already decided on this path
